@@ -36,6 +36,20 @@ TIERS = {
 }
 CWD = '/w'
 HOME = '/home/u'
+# ways of placing "INC" (an include of all documents) below a key; path = where the merged content must appear
+UNDER_SHAPES = ['key', 'deep', 'merge_anc', 'del_anc', 'force_anc', 'weak_anc', 'in_list', 'merge_list', 'multidoc', 'deep_multidoc']
+_UNDER = {
+    'key': ('{wrapped: INC}', ['wrapped']),
+    'deep': ('{outer: {mid: {wrapped: INC}}}', ['outer', 'mid', 'wrapped']),
+    'merge_anc': ('{outer: !merge {wrapped: INC}}', ['outer', 'wrapped']),
+    'del_anc': ('{outer: !del {wrapped: INC, other: 1}}', ['outer', 'wrapped']),
+    'force_anc': ('{outer: !force {mid: {wrapped: INC}}}', ['outer', 'mid', 'wrapped']),
+    'weak_anc': ('{outer: !weak {wrapped: INC}}', ['outer', 'wrapped']),
+    'in_list': ('{lst: [0, INC]}', ['lst', 1]),
+    'merge_list': ('{lst: !merge [INC, 1]}', ['lst', 0]),
+    'multidoc': ('{wrapped: INC}', ['wrapped']),
+    'deep_multidoc': ('{outer: !merge {mid: [INC]}}', ['outer', 'mid', 0]),
+}
 PATH_FORMS = ['file', 'parent', 'parent(0)', 'parent(1)', 'parent(2)', 'parent(5)', 'cwd', 'abs(/opt/data)', '']
 
 
@@ -136,7 +150,7 @@ def generate(r, tier, index):
             faults.append({'kind': 'replaced', 'plan': r.randrange(len(plans)), 'nth': r.randrange(0, 6)})
         else:
             faults.append({'kind': 'missing', 'plan': r.randrange(len(plans)), 'pick': r.getrandbits(16), 'count': 1})
-    return {'docs': docs, 'ptoks': ptoks, 'plans': plans, 'faults': faults, 'under_key': r.random() < 0.35}
+    return {'docs': docs, 'ptoks': ptoks, 'plans': plans, 'faults': faults, 'under_key': r.choice(UNDER_SHAPES) if r.random() < 0.45 else None}
 
 
 # ---------------------------------------------------------------------------------------------
@@ -253,7 +267,16 @@ def materialise(sc, plan, wrap_key=None):
         else:
             body = emit.emit_doc(raw('!include [' + ', '.join(emit.scalar_text(nm) for nm in names) + ']'))
         if wrap_key is not None:
-            body = emit.emit_doc(m({wrap_key: raw('!include [' + ', '.join(emit.scalar_text(nm) for nm in names) + ']')}))
+            inc = '!include [' + ', '.join(emit.scalar_text(nm) for nm in names) + ']'
+            if 'multidoc' in wrap_key:
+                # all documents in one multi-document file next to the master
+                multi = f'{inc_dir}/{tag}_all_docs.yaml'
+                files[multi] = emit.emit_stream([docs[i] for i in d['docs']])
+                for i in d['docs']:
+                    where[i] = multi
+                includes[:] = [{'from': inc_from, 'name': f'{tag}_all_docs.yaml', 'target': multi}]
+                inc = f'!include {tag}_all_docs.yaml'
+            body = _UNDER[wrap_key][0].replace('INC', inc) + '\n'
         files[inc_from] = body
         calls.append({'path': _src_name(master, d['name_how']), 'raw_yaml': r.choice([None, False])})
     return {'files': files, 'calls': calls, 'where': where, 'includes': includes, 'decoys': decoys}
@@ -512,21 +535,29 @@ def execute(sc):
                     pass   # error class may differ by route (MergeError vs PremergeError); only success/failure is compared
         # key: !include [...]  ==  {key: merged content}
         if not res['violations'] and sc.get('under_key') and ref['status'] == 'ok' and sc['plans']:
-            mat = materialise(sc, sc['plans'][0], wrap_key='wrapped')
+            shape = sc['under_key'] if isinstance(sc['under_key'], str) else 'key'
+            mat = materialise(sc, sc['plans'][0], wrap_key=shape)
             obs = _run(mat)
             st['runs'] += 1
             count(probes, 'delivery:under_key')
-            res['keys'].append(core.digest([sc['docs'], 'under_key', sc['plans'][0][0]['dir']]))
-            want = {'__dict__': [[['str', 'wrapped'], ref['cfg']]], '__t__': 'Config'}
+            count(probes, 'under:' + shape)
+            res['keys'].append(core.digest([sc['docs'], 'under_key', shape, sc['plans'][0][0]['dir']]))
             if obs['status'] != 'ok':
-                res['violations'].append(core.violation('route.outcome', f'key: !include [..] failed ({obs["exc"]["type"]}: {obs["exc"]["msg"][:400]}) but the files merge fine as separate sources', ref='ok', stage=obs.get('stage')))
+                res['violations'].append(core.violation('route.outcome', f'{_UNDER[shape][0]} failed ({obs["exc"]["type"]}: {obs["exc"]["msg"][:400]}) but the files merge fine as separate sources', ref='ok', stage=obs.get('stage')))
             else:
-                got = obs['cfg']
-                inner = got['__dict__'][0][1] if got.get('__dict__') and len(got['__dict__']) == 1 else None
+                inner = obs['cfg']
+                try:
+                    for comp in _UNDER[shape][1]:
+                        if '__dict__' in inner:
+                            inner = next(v for k, v in inner['__dict__'] if k[1] == comp)
+                        else:
+                            inner = inner['__seq__'][comp]
+                except (StopIteration, IndexError, KeyError, TypeError):
+                    inner = None
                 ref_inner = dict(ref['cfg'])
-                if inner is None or inner.get('__dict__') != ref_inner.get('__dict__'):
-                    d = _first_diff(inner, ref_inner)
-                    res['violations'].append(core.violation('route.config', f'key: !include [f1..fn] differs from {{key: merged content}} at {d[0]}: got {d[1]!r}, expected {d[2]!r}', kinds='under_key'))
+                if inner is None or not isinstance(inner, dict) or inner.get('__dict__') != ref_inner.get('__dict__'):
+                    d = _first_diff(inner, ref_inner) or ('', inner, ref_inner)
+                    res['violations'].append(core.violation('route.config', f'{_UNDER[shape][0]} (INC = include of all documents) differs from placing the merged content there, at {d[0]}: got {d[1]!r}, expected {d[2]!r}', kinds='under_key:' + shape))
                 else:
                     _check_lookup(mat, obs, res, 'under_key')
                     _check_paths(sc, mat, obs, res, 'under_key')
